@@ -331,6 +331,17 @@ func (e *engine) liveOwner() bool {
 	return y.alive && y.eng == e.curGen && !y.silent
 }
 
+// cancelObj: l.cancelStore.Cancel() on a lock object — every heartbeat writer started through it is cancelled
+func (e *engine) cancelObj(obj int) {
+	for _, y := range e.cs {
+		if y.obj == obj {
+			for k := range y.hbCanc {
+				y.hbCanc[k] = true
+			}
+		}
+	}
+}
+
 // heldLive: the creator of the present directory holds (or is acquiring) it and is alive — whether or not its heartbeat
 // writer is still there (the removal oracle; liveOwner is the proviso on the ages presented)
 func (e *engine) heldLive() bool {
@@ -437,13 +448,7 @@ func (e *engine) exec(it Item) bool {
 					return false
 				}
 			}
-			for _, y := range e.cs {
-				if y.obj == x.obj { // the cancel store of the lock object: every writer started through it
-					for k := range y.hbCanc {
-						y.hbCanc[k] = true
-					}
-				}
-			}
+			e.cancelObj(x.obj)
 			x.holds = false
 			x.relGen, x.rmOwn = x.eng, false
 			x.awaitCheck, x.checkSeen, x.checkSaw, x.checkFault = false, false, false, false
@@ -532,6 +537,13 @@ func (e *engine) exec(it Item) bool {
 				return false
 			}
 		}
+		for _, f := range e.sc.Faults {
+			if f.Persist {
+				// a persistent backend fault legitimately keeps a call retrying for ever (every Rm fails, the override recurses)
+				e.out.Invalid = "macro did not end under a persistent fault"
+				return false
+			}
+		}
 		e.out.Stuck = "macro did not end"
 		return false
 	case "step":
@@ -553,7 +565,10 @@ func (e *engine) exec(it Item) bool {
 // within a period (50 ms); it is given 30 periods.
 func (e *engine) hbGone(c, k int) bool {
 	x := e.cs[c]
-	if !(x.holds && x.alive && !x.inCall && k == len(x.hbPC)-1 && x.hbPC[k] != 2 && !x.hbCanc[k]) {
+	// (holder_heartbeat_keeps_running: in histories WITHOUT a destroyed lock.  After a destruction — the known findings —
+	// a user of the same lock object can legitimately judge the left-over directory stale, and its ReleaseIfStale -> Unlock
+	// cancels the store of the object, the destroyed holder's writer included.)
+	if !(x.holds && x.alive && !x.inCall && k == len(x.hbPC)-1 && x.hbPC[k] != 2 && !x.hbCanc[k] && !e.out.Bad) {
 		return false
 	}
 	if p, _ := e.s.WaitPending(lsched.Actor{C: c, HB: k}, nil, 1500*time.Millisecond); p != nil {
@@ -582,8 +597,16 @@ func (e *engine) stepHb(it Item) bool {
 	if e.hbGone(it.C, k) {
 		return true // reported by the oracle; the schedule goes on without this writer
 	}
-	p, _ := e.s.WaitPending(a, nil, waitT)
+	wait := waitT
+	if x.hbCanc[k] || e.out.Bad {
+		wait = 400 * time.Millisecond // a cancelled writer that was asleep when its store was cancelled just ends
+	}
+	p, _ := e.s.WaitPending(a, nil, wait)
 	if p == nil {
+		if x.hbCanc[k] || e.out.Bad {
+			x.hbPC[k] = 2
+			return true
+		}
 		e.out.Stuck = "heartbeat writer not pending"
 		return false
 	}
@@ -679,6 +702,10 @@ func (e *engine) stepMain(it Item) bool {
 	}
 	stale := age > staleMs
 	it.Stale, it.Age = stale, age
+	if x.api != "Unlock" && p.Op == "Lstat" && p.Class == "dir" {
+		// first operation of the Rm of an Unlock issued from inside an acquire (ReleaseIfStale): its store was cancelled
+		e.cancelObj(x.obj)
+	}
 	res := e.s.ReleaseFault(p, time.Duration(age)*time.Millisecond, faultErr[kind])
 	if p.Op == "Stat" && p.Class == "dir" && x.api == "Unlock" && x.awaitCheck {
 		// the first look at the lock path after a removal: the existence re-check of Unlock (lockfile.go:208)
@@ -781,6 +808,11 @@ func (e *engine) finishCall(c int, o *StepObs) bool {
 	}
 	x.inCall = false
 	x.win = false
+	if (x.api == "LockWithTimeout" || x.api == shortAPI) && rc == 4 && x.judged >= 0 {
+		// LockWithTimeout's own override path: ReleaseIfStale -> Unlock cancelled the store of the object (and with it the
+		// action's context: "cancelled") without any backend operation
+		e.cancelObj(x.obj)
+	}
 	e.out.Kinds[fmt.Sprintf("ret:%s:%d", x.api, rc)]++
 	if x.api == "Unlock" {
 		if rc == 1 {
